@@ -14,7 +14,7 @@ CONSTANTS
   AutoApprove = TRUE
   Opts = {}
   ReportOnce = TRUE
-  MaxLevel = 13
+  MaxLevel = 12
   EmitJson = FALSE
   PruneOnlyOwned = FALSE
   AtomicPush = TRUE
